@@ -21,7 +21,18 @@ def observe(spec, inputs):
         _clear_caches(n)
         c = plspec.build(n, spec["model"], {})
         P = c.ge_polyhedron
-        w = P._vectors_from_prios([dict(inputs["prios"])])
+        if spec.get("via") == "select":
+            got = []
+
+            def rec(Pm, objs):
+                got.append(numpy.asarray(objs))
+                return [(None, 0, 4) for _ in got[-1]]
+            if spec.get("repeat"):
+                list(P.select(dict(inputs["prios0"]), solver=rec))
+            list(P.select(dict(inputs["prios"]), solver=rec))
+            w = got[-1]
+        else:
+            w = P._vectors_from_prios([dict(inputs["prios"])])
         out["w"] = [int(v) for v in numpy.asarray(w)[0]]
         out["cols"] = [str(v.id) for v in P.A.variables]
         out["M"] = numpy.asarray(P).astype(int).tolist()
